@@ -781,3 +781,22 @@ func init() {
 		},
 	})
 }
+
+func init() {
+	register(&PropDef{
+		ID:    "C38",
+		Title: "The classic interpreter matches Go on its documented subset",
+		Explanation: "Decided: A5 in classic form: in every switch over a go/token operator in package classic, an arm that computes with exactly one Go operator uses the operator of the arm's own tokens (T and T_ASSIGN share an arm) with the operands in order; plus the macro code walk and quasiquote depth table of the classic interpreter agree with the fast one (K1, shared with C20). " +
+			"Not decided: everything else about the classic evaluator (tree-walking evaluation, scoping, calls).",
+		Assumptions: []string{"Go operator semantics"},
+		Rules: []func(*Ctx){func(c *Ctx) {
+			ruleTokenArmOperators(c, "classic", nil, "A5-classic-operator")
+			ruleMacroCodewalk(c, "K1-macro-codewalk")
+		}},
+		Mutants: []Mutant{
+			{Name: "classic-int-sub-is-add", File: "classic/binaryexpr.go", Old: "\tcase token.SUB, token.SUB_ASSIGN:\n\t\tret = x - y\n", New: "\tcase token.SUB, token.SUB_ASSIGN:\n\t\tret = x + y\n", Nth: 1, Canary: true},
+			{Name: "classic-float-lss-operands-swapped", File: "classic/binaryexpr.go", Old: "\t\tcase token.LSS:\n\t\t\tb = x < y\n", New: "\t\tcase token.LSS:\n\t\t\tb = y < x\n", Nth: 1, Canary: true},
+			{Name: "classic-uint-andnot-is-and", File: "classic/binaryexpr.go", Old: "ret = x &^ y", New: "ret = x & y", Nth: 2},
+		},
+	})
+}
